@@ -282,12 +282,21 @@ Definition ep_dump_di (v : pyval) : pyval :=
   | _ => bad_input
   end.
 
+From PM Require Import Model.TreeInfo00.
+Definition ep_release_00 (v : pyval) : pyval :=
+  match v with
+  | PList [PStr family; PStr version] =>
+      let '(n, s, ver) := release_00 family version in PList [PStr n; PStr s; PStr ver]
+  | _ => bad_input
+  end.
+
 (* the INI writer alone, on a section table *)
 Definition ep_print_ini (v : pyval) : pyval :=
   match get_ini v with Some t => PStr (print_ini t) | None => bad_input end.
 
 Definition entries_ti : list (str * (pyval -> pyval)) :=
-  [ (lit "dump_ti", ep_dump_ti); (lit "load_ti", ep_load_ti); (lit "dump_di", ep_dump_di); (lit "print_ini", ep_print_ini) ].
+  [ (lit "dump_ti", ep_dump_ti); (lit "load_ti", ep_load_ti); (lit "dump_di", ep_dump_di); (lit "print_ini", ep_print_ini);
+    (lit "release_00", ep_release_00) ].
 
 (* ---------------- checksums *)
 From PM Require Import Model.Checksums.
